@@ -89,6 +89,52 @@ CLAIMED = {
             "declared and undeclared keys) after 4 constructor variants on 6 library fixeddict types, against a plain-dict model.",
             "Trusted: the model in checks/c27.py. Exhaustive within the bound; selector-symbolic.",
             "selector-symbolic bounded exhaustive exploration of the real classes (symx) vs dict model", "3 C27"),
+    "C03": (MC,
+            "REDUCED CLAIM. For a catalogue of 14 (quick) / 26 (thorough) concrete codec configurations with concrete tiny pictures, the "
+            "first picture number is a symbolic 32-bit value (all 2^32 starting numbers, explicit or first-explicit-then-AUTO): the real "
+            "make_sequence -> autofill_and_serialise_stream -> parse_stream pipeline is executed symbolically; accepted, one decoded "
+            "picture per input in order, z3 proves the decoded picture numbers, video parameters / coding mode compared, lossless content equal.",
+            "The configuration space and picture content are enumerated, not solved: pixel-content universality is carried by C04/C09/C14 "
+            "and header universality by C15. Trusted: symx, z3.",
+            "symbolic execution of the real encoder->serialiser->decoder pipeline (symx) with symbolic picture numbers", "3 C03"),
+    "C04": (MC,
+            "Compositional: (1) picture_decode(picture_encode(p)) = p for symbolic samples within the bit depth; (2) dc_prediction inverts "
+            "apply_dc_prediction on arbitrary integer bands; (3) quantisation at index 0 is the identity; (4) calculate_coeffs_bits equals the "
+            "bits the real writer emits and lossless length fields always hold them (code lengths havocked); (5) the full real pipeline on a "
+            "2x1 picture over all 2-bit sample values, lossless and lossy-at-qindex-0; (6) the pipeline on the lossless configuration catalogue "
+            "with extreme concrete pictures.",
+            "The argument that 1-4 compose to the property for every configuration is informal; 5-6 check the composition on listed "
+            "configurations only. Trusted: symx, z3.",
+            "symbolic execution of the real transform/prediction/quantisation/length functions (symx) + z3; enumerated end-to-end glue", "3 C04"),
+    "C07": (MC,
+            "Stream descriptions built by the real encoder are given symbolic explicit values (32-bit picture numbers and parse offsets, "
+            "major_version, preset indices, asymmetric-transform fields) under every explicit/AUTO mask of the bound; the real "
+            "autofill_and_serialise_stream writes to a symbolic file and the real Deserialiser reads it back: z3 proves explicit values kept, "
+            "AUTO picture numbers follow the reference recurrence, offsets equal true distances, AUTO major_version equals an independent "
+            "reference of (11.2.2), and the real decoder raises no version error.",
+            "Trusted: symx (incl. bit-blast on demand), z3, the reference version rule in checks/c07.py. Bound: <=4 pictures, <=2 sequences.",
+            "symbolic execution of the real autofill + serialiser + deserialiser (symx), z3 equality per field", "3 C07"),
+    "C14": (MC,
+            "Caller/callee split over the real rate-control code: quantize_to_fit with havocked code lengths (smallest fitting index), the "
+            "ceiling in calculate_hq_length_field, quantiser wiring and termination, make_transform_data_hq_lossy with symbolic picture_bytes "
+            "under the proven contract (all length fields in [0,255], total within scaler of picture_bytes), low-delay target sizes vs the "
+            "decoder's length-field width, and glue runs with symbolic coefficients through the real functions.",
+            "The composition is informal; havoc stubs return arbitrary values within the contracts proved by the other obligations. Trusted: symx, z3.",
+            "symbolic execution of the real rate-control functions with havocked callees (symx) + z3", "3 C14"),
+    "C15": (MC,
+            "For every base video format, the encoder's first alternative sequence headers are serialised by the real Serialiser and parsed by "
+            "the real decoder with frame size/clean area, frame rate, pixel aspect ratio and signal ranges symbolic (8/12-bit): z3 proves every "
+            "decoded video parameter and the coding mode equal the request; enum-valued parameters (every single deviation and every colour "
+            "primaries x matrix x transfer function combination) and all real (level, format, profile) combinations are enumerated.",
+            "Trusted: symx, z3. Regular formats only (frame size multiples of 4 when symbolic). Bound: 2/12 alternatives, 8/12-bit values.",
+            "symbolic execution of the real header generator, serialiser and decoder (symx) + z3", "3 C15"),
+    "C28": (MC,
+            "CrossHair (symbolic str, z3) confirms contracts over parse_int_at_least / parse_int_enum on all short strings of a small "
+            "alphabet; symx runs read_codec_features_csv on a valid table with one cell a symbolic numeral (z3 Int) or a selector-chosen "
+            "textual mutation, all short parse_bool / quantisation-matrix strings, and structural mutations: the result lies in the "
+            "documented domains or InvalidCodecFeaturesError is raised.",
+            "Trusted: symx, CrossHair 0.0.110, z3; int/csv.reader shadows for the symbolic-numeral cases. CSV tokenisation (C module) is outside.",
+            "CrossHair contracts + symbolic execution of the real CSV reader with symbolic numeral cells (symx)", "3 C28"),
     "C20": (MC,
             "Symbolic execution of the real BitstreamReader/BitstreamWriter and of the decoder's read_* functions on the same buffer of "
             "symbolic bits: per path (one per exp-Golomb length class / end-of-file point / block length) z3 proves equal values, equal tell(), "
